@@ -146,6 +146,64 @@ let do_query id ins outs =
     else verdict "query" id "diff" tag (Printf.sprintf "impl=%s model=%s" is ms)
   | _ -> verdict "query" id "diff" "malformed-line" ""
 
+(* ---- engine forwarder ----
+   fwd <id> <n> (<"-"|d<domhex>> <upid>)*n <qnamehex> => <saw list> <ok> *)
+let do_fwd id ins outs =
+  match ins with
+  | nstr :: rest ->
+    let n = int_of_string nstr in
+    let rec take k l acc = if k = 0 then (List.rev acc, l) else
+        (match l with d :: u :: r -> take (k-1) r ((d, int_of_string u) :: acc) | _ -> failwith "fwd line") in
+    let (fl, rest') = take n rest [] in
+    let qname = bytes_of_token (List.hd rest') in
+    let dom_of d = if d = "-" then None else Some (bytes_of_token (String.sub d 1 (String.length d - 1))) in
+    let fs = List.fold_left (fun acc (d, u) -> fwd_set acc (new_fwd (dom_of d) (z_of_int u))) [] fl in
+    let model = String.concat "," (List.map (fun z -> string_of_int (int_of_z z)) (fwd_resolve fs qname)) in
+    (* spec over label lists: the configured entries in their final order (after Set's replacement) *)
+    let sfs = List.map (fun f -> ((match f.f_domain with [] -> None | d -> Some (split_dots d [])), f.f_up)) fs in
+    let spec = string_of_int (int_of_z (spec_get sfs (split_dots qname []))) in
+    let impl = List.hd outs in
+    let tag = (if model = "0" then "default" else "fwd") ^ (if List.exists (fun (d,_) -> d = "-") fl then "+nodomain" else "") in
+    if impl <> spec then verdict "fwd" id "spec:C10" tag (Printf.sprintf "impl=%s spec=%s model=%s" impl spec model)
+    else if impl <> model then verdict "fwd" id "diff" tag (Printf.sprintf "impl=%s model=%s" impl model)
+    else verdict "fwd" id "ok" tag ""
+  | _ -> verdict "fwd" id "diff" "malformed-line" ""
+
+(* ---- engine profile ----
+   prof <id> <n> (<entry> <idhex>)*n <src> <dst> <mac> => <gothex> *)
+let do_prof id ins outs =
+  match ins with
+  | nstr :: rest ->
+    let n = int_of_string nstr in
+    let rec take k l acc = if k = 0 then (List.rev acc, l) else
+        (match l with e :: i :: r -> take (k-1) r ((e, i) :: acc) | _ -> failwith "prof line") in
+    let (el, rest') = take n rest [] in
+    let mk (e, i) =
+      let pid = bytes_of_token i in
+      let body = String.sub e 1 (String.length e - 1) in
+      match e.[0] with
+      | 'D' -> { pr_id = pid; pr_prefix = None; pr_mac = []; pr_dest = [] }
+      | 'P' -> let j = String.index body '/' in
+        let ip = bytes_of_token (String.sub body 0 j) and bits = int_of_string (String.sub body (j+1) (String.length body - j - 1)) in
+        { pr_id = pid; pr_prefix = Some { c_ip = ip; c_bits = z_of_int bits }; pr_mac = []; pr_dest = [] }
+      | 'M' -> { pr_id = pid; pr_prefix = None; pr_mac = bytes_of_token body; pr_dest = [] }
+      | _ -> let ips = if body = "" then [] else List.map bytes_of_token (String.split_on_char ',' body) in
+        { pr_id = pid; pr_prefix = None; pr_mac = []; pr_dest = ips } in
+    let ps = List.fold_left (fun acc x -> pset acc (mk x)) [] el in
+    (match rest' with
+     | [src; dst; mac] ->
+       let o s = if s = "nil" then None else Some (bytes_of_token s) in
+       let c = { cl_src = o src; cl_dst = o dst; cl_mac = (if mac = "nil" then [] else bytes_of_token mac) } in
+       let enc l = (match l with [] -> "-" | _ -> hex_of_string (string_of_bytes l)) in
+       let model = enc (pget ps c) and spec = enc (pget_spec ps c) in
+       let impl = List.hd outs in
+       let tag = if model = "-" then "none" else "some" in
+       if impl <> spec then verdict "prof" id "spec:C11" tag (Printf.sprintf "impl=%s spec=%s model=%s" impl spec model)
+       else if impl <> model then verdict "prof" id "diff" tag (Printf.sprintf "impl=%s model=%s" impl model)
+       else verdict "prof" id "ok" tag ""
+     | _ -> verdict "prof" id "diff" "malformed-line" "")
+  | _ -> verdict "prof" id "diff" "malformed-line" ""
+
 let () =
   try
     while true do
@@ -154,6 +212,8 @@ let () =
       match toks with
       | "reply" :: id :: rest -> let (i, o) = split_arrow rest in do_reply id i o
       | "query" :: id :: rest -> let (i, o) = split_arrow rest in do_query id i o
+      | "fwd" :: id :: rest -> let (i, o) = split_arrow rest in do_fwd id i o
+      | "prof" :: id :: rest -> let (i, o) = split_arrow rest in do_prof id i o
       | _ -> ()
     done
   with End_of_file -> ()
